@@ -1,4 +1,5 @@
 import SigpyVerif.Model.Py
+import SigpyVerif.Model.C03Base
 /-
   C03 model: the operator algebra of sigpy/linop.py (core Lean only, executable, linked into the driver).
 
@@ -26,33 +27,36 @@ import SigpyVerif.Model.Py
   the theorems in `Props/C03.lean` are proved for every commutative ring (hence for ℂ and `GRat`).
 
   Abstractions (validated by the correspondence check, not proved): dense row-major layout of numpy
-  arrays; `_check_ishape/_check_oshape` compare with `zip` (a prefix test) — the model demands
-  equality, inputs of a different rank are outside the modelled domain; shapes are positive
+  arrays; `_check_ishape/_check_oshape` are modelled EXACTLY (`zipGuard`: `zip` stops at the shorter
+  shape), and the correspondence sends inputs of a different rank through chains of `Identity`/`Reshape`/
+  scalar operators (`idOp`, `reshapeOp`, transcriptions of their `_apply`); dense leaves and the stacking
+  combinators are only run on inputs of the advertised shape (numpy broadcasting of off-rank operands in
+  `output[slc] = y` / `a + b` is not modelled); shapes are positive
   (`_check_shape_positive`), so they are `Nat` after the leaf check; `Compose` flattening of nested
   compositions does not change the function computed and is not modelled.
 -/
 namespace SigpyVerif.C03
 
-inductive Err | build | apply
-  deriving DecidableEq, Repr
-
 structure NDArr (α : Type) where
   shape : List Nat
   data : List α
-
-/-- `util.prod` -/
-def sprod (s : List Nat) : Nat := s.foldr (· * ·) 1
 
 structure Op (α : Type) where
   oshape : List Nat
   ishape : List Nat
   app : NDArr α → Except Err (NDArr α)
 
-/-- `Linop.apply`: shape guards around `_apply`; any exception becomes a RuntimeError. -/
+/-- the guard on `Nat` shapes (a built operator's shapes are positive, so `-1` never occurs in them; the
+    general form with the wildcard is `zipGuard`, see `Props/C03Loop.lean` for its characterisation) -/
+def natGuard (got adv : List Nat) : Bool := zipGuard (got.map Int.ofNat) (adv.map Int.ofNat)
+
+/-- `Linop.apply`: the shape guards `_check_ishape` / `_check_oshape` around `_apply`; any exception
+    becomes a RuntimeError.  The guards are the EXACT ones of the source (`zip` stops at the shorter shape):
+    an input whose shape is a proper prefix or extension of `ishape` passes. -/
 def Op.call {α} (A : Op α) (x : NDArr α) : Except Err (NDArr α) :=
-  if x.shape = A.ishape then
+  if natGuard x.shape A.ishape then
     match A.app x with
-    | .ok y => if y.shape = A.oshape then .ok y else .error .apply
+    | .ok y => if natGuard y.shape A.oshape then .ok y else .error .apply
     | .error _ => .error .apply
   else .error .apply
 
@@ -73,6 +77,21 @@ def matOp {α} [Add α] [Mul α] [Zero α] (oshape ishape : List Int) (rows : Li
 /-- `Multiply(shape, a)` for a scalar `a` (`input * mult`) -/
 def mulOp {α} [Mul α] (shape : List Nat) (a : α) : Op α :=
   ⟨shape, shape, fun x => .ok ⟨x.shape, x.data.map (· * a)⟩⟩
+
+/-- `reshape` (numpy raises when the sizes differ) -/
+def reshape {α} (x : NDArr α) (shape : List Nat) : Except Err (NDArr α) :=
+  if x.data.length = sprod shape then .ok ⟨shape, x.data⟩ else .error .apply
+
+/-- `Identity(shape)`: `_apply` returns its input whatever its shape is -/
+def idOp {α} (shape : List Int) : Except Err (Op α) :=
+  if shape.all (0 < ·) then .ok ⟨shape.map Int.toNat, shape.map Int.toNat, fun x => .ok x⟩ else .error .build
+
+/-- `Reshape(oshape, ishape)`: `_apply` is `input.reshape(oshape)` whatever the input's shape is (the
+    constructor does not compare the sizes) -/
+def reshapeOp {α} (oshape ishape : List Int) : Except Err (Op α) :=
+  if oshape.all (0 < ·) ∧ ishape.all (0 < ·) then
+    .ok ⟨oshape.map Int.toNat, ishape.map Int.toNat, fun x => reshape x (oshape.map Int.toNat)⟩
+  else .error .build
 
 /-! ### Compose -/
 
@@ -243,10 +262,6 @@ def assembleAx {α} [Zero α] (oshape : List Nat) (a : Nat) (bs : List (Nat × O
         (ys.map fun y => rowOf ((geom y.shape a).n * g.inner) o y.data)) g.outer with
   | .ok rows => .ok ⟨oshape, rows.flatten⟩
   | .error e => .error e
-
-/-- `reshape` (numpy raises when the sizes differ) -/
-def reshape {α} (x : NDArr α) (shape : List Nat) : Except Err (NDArr α) :=
-  if x.data.length = sprod shape then .ok ⟨shape, x.data⟩ else .error .apply
 
 /-- the slab handed to operand `n`: `input[slc]`, or `input[start:end].reshape(ishape)` for `axis=None` -/
 def slab {α} (axis : Option Int) (opShape : List Nat) (x : NDArr α) (b : Nat × Option Nat) :
